@@ -545,6 +545,238 @@ func (g *sgen) group(depth int, top bool) string {
 	return strings.Join(parts, g.ws()+","+g.ws())
 }
 
+
+// ---------------------------------------------------------------- guided selectors: built from an element of the tree
+
+func elemIndex(n *html.Node, ofType, last bool) int {
+	i := 0
+	if last {
+		for c := n; c != nil; c = c.NextSibling {
+			if c.Type == html.ElementNode && (!ofType || c.Data == n.Data) {
+				i++
+			}
+		}
+		return i
+	}
+	for c := n; c != nil; c = c.PrevSibling {
+		if c.Type == html.ElementNode && (!ofType || c.Data == n.Data) {
+			i++
+		}
+	}
+	return i
+}
+
+// a compound selector that matches element n (or nearly: with probability 1/6 one part is perturbed)
+func (g *sgen) compoundFor(n *html.Node) string {
+	r := g.r
+	var sb strings.Builder
+	if r.Chance(3, 5) {
+		sb.WriteString(n.Data)
+	} else if r.Chance(1, 4) {
+		sb.WriteString("*")
+	}
+	parts := r.Range(0, 2)
+	if sb.Len() == 0 && parts == 0 {
+		parts = 1
+	}
+	for k := 0; k < parts; k++ {
+		switch r.Intn(4) {
+		case 0, 1: // from an attribute
+			if len(n.Attr) == 0 {
+				sb.WriteString(":not(" + vlib.Pick(r, []string{"[class]", ".a", "#b", "[title]"}) + ")")
+				continue
+			}
+			a := n.Attr[r.Intn(len(n.Attr))]
+			v := a.Val
+			words := strings.FieldsFunc(v, func(c rune) bool { return strings.ContainsRune(" \t\n\f\r", c) })
+			ascii := true
+			for i := 0; i < len(v); i++ {
+				if v[i] >= 128 {
+					ascii = false
+				}
+			}
+			q := func(s string) string {
+				s = strings.ReplaceAll(s, "\\", "\\\\")
+				s = strings.ReplaceAll(s, "\"", "\\\"")
+				s = strings.ReplaceAll(s, "\n", "\\a ")
+				s = strings.ReplaceAll(s, "\f", "\\c ")
+				s = strings.ReplaceAll(s, "\r", "\\d ")
+				return "\"" + s + "\""
+			}
+			flag := ""
+			mod := func(s string) string { return s }
+			if ascii && r.Chance(1, 3) {
+				flag = " i"
+				mod = func(s string) string {
+					if r.Bool() {
+						return strings.ToUpper(s)
+					}
+					return strings.ToLower(s)
+				}
+			}
+			switch {
+			case a.Key == "class" && len(words) > 0 && r.Chance(1, 2):
+				w := vlib.Pick(r, words)
+				ok := w != ""
+				for i := 0; i < len(w); i++ {
+					c := w[i]
+					if !(c == '-' && i > 0 || c == '_' || c >= 'a' && c <= 'z' || c >= 'A' && c <= 'Z' || c >= '0' && c <= '9' && i > 0) {
+						ok = false
+					}
+				}
+				if ok {
+					sb.WriteString("." + w)
+				} else {
+					sb.WriteString("[class~=" + q(w) + "]")
+				}
+			case a.Key == "id" && r.Chance(1, 2) && v != "" && !strings.ContainsAny(v, " \t\n") && !(v[0] >= '0' && v[0] <= '9'):
+				sb.WriteString("#" + v)
+			default:
+				switch r.Intn(8) {
+				case 0:
+					sb.WriteString("[" + a.Key + "]")
+				case 1:
+					sb.WriteString("[" + a.Key + "=" + q(mod(v)) + flag + "]")
+				case 2:
+					w := v
+					if len(words) > 0 {
+						w = vlib.Pick(r, words)
+					}
+					sb.WriteString("[" + a.Key + "~=" + q(mod(w)) + flag + "]")
+				case 3:
+					w := v
+					if i := strings.IndexByte(v, '-'); i >= 0 && r.Bool() {
+						w = v[:i]
+					}
+					sb.WriteString("[" + a.Key + "|=" + q(mod(w)) + flag + "]")
+				case 4:
+					sb.WriteString("[" + a.Key + "^=" + q(mod(v[:r.Intn(len(v)+1)])) + flag + "]")
+				case 5:
+					sb.WriteString("[" + a.Key + "$=" + q(mod(v[r.Intn(len(v)+1):])) + flag + "]")
+				case 6:
+					i := r.Intn(len(v) + 1)
+					j := i + r.Intn(len(v)-i+1)
+					sb.WriteString("[" + a.Key + "*=" + q(mod(v[i:j])) + flag + "]")
+				default:
+					sb.WriteString("[" + a.Key + "!=" + q(vlib.Pick(r, attrVals)) + "]")
+				}
+			}
+		case 2: // structural, from the actual position
+			ofType, last := r.Bool(), r.Bool()
+			idx := elemIndex(n, ofType, last)
+			name := "nth-"
+			if last {
+				name += "last-"
+			}
+			if ofType {
+				name += "of-type"
+			} else {
+				name += "child"
+			}
+			a := r.Range(-4, 4)
+			m := r.Range(0, 2)
+			b := idx - a*m // idx = a*m + b
+			if r.Chance(1, 6) {
+				b += r.Range(-1, 1)
+			}
+			bs := ""
+			if b > 0 {
+				bs = fmt.Sprintf("+%d", b)
+			} else if b < 0 {
+				bs = fmt.Sprint(b)
+			}
+			switch {
+			case a == 0 && r.Bool():
+				sb.WriteString(fmt.Sprintf(":%s(%d)", name, b))
+			default:
+				sb.WriteString(fmt.Sprintf(":%s(%dn%s)", name, a, bs))
+			}
+		default:
+			switch r.Intn(6) {
+			case 0:
+				if n.FirstChild == nil {
+					sb.WriteString(":empty")
+				} else {
+					sb.WriteString(":not(:empty)")
+				}
+			case 1:
+				sb.WriteString(vlib.Pick(r, []string{":first-child", ":last-child", ":only-child", ":first-of-type", ":last-of-type", ":only-of-type"}))
+			case 2:
+				wrote := false
+				for c := n.FirstChild; c != nil; c = c.NextSibling {
+					if c.Type == html.ElementNode {
+						sb.WriteString(vlib.Pick(r, []string{":has(", ":haschild(", ":has(* > "}) + c.Data + ")")
+						wrote = true
+						break
+					}
+				}
+				if !wrote {
+					sb.WriteString(":not(:has(*))")
+				}
+			case 3:
+				sb.WriteString(":is(" + n.Data + ", .a)")
+			case 4:
+				sb.WriteString(":not(" + vlib.Pick(r, mainTags) + ")")
+			default:
+				sb.WriteString(":root")
+			}
+		}
+	}
+	return sb.String()
+}
+
+// a complex selector following the real ancestors / siblings of element n
+func (g *sgen) guided(n *html.Node) string {
+	r := g.r
+	s := g.compoundFor(n)
+	cur := n
+	for depth := r.Range(0, 2); depth > 0; depth-- {
+		switch r.Intn(4) {
+		case 0: // some ancestor
+			p := cur.Parent
+			for p != nil && p.Type == html.ElementNode && p.Parent != nil && p.Parent.Type == html.ElementNode && r.Bool() {
+				p = p.Parent
+			}
+			if p == nil || p.Type != html.ElementNode {
+				return s
+			}
+			s = g.compoundFor(p) + " " + s
+			cur = p
+		case 1:
+			p := cur.Parent
+			if p == nil || p.Type != html.ElementNode {
+				return s
+			}
+			s = g.compoundFor(p) + " > " + s
+			cur = p
+		case 2: // previous element sibling
+			p := cur.PrevSibling
+			for p != nil && p.Type != html.ElementNode {
+				p = p.PrevSibling
+			}
+			if p == nil {
+				return s
+			}
+			s = g.compoundFor(p) + g.ws() + "+" + g.ws() + s
+			cur = p
+		default: // some earlier element sibling
+			var prevs []*html.Node
+			for p := cur.PrevSibling; p != nil; p = p.PrevSibling {
+				if p.Type == html.ElementNode {
+					prevs = append(prevs, p)
+				}
+			}
+			if len(prevs) == 0 {
+				return s
+			}
+			p := vlib.Pick(r, prevs)
+			s = g.compoundFor(p) + " ~ " + s
+			cur = p
+		}
+	}
+	return s
+}
+
 // boundary stream: damage a valid selector
 func mutate(r *vlib.Rng, s string) string {
 	const alphabet = "()[]:.#,>+~*\"'\\ -n0123456789=^$|!aAiI/\t"
@@ -682,7 +914,11 @@ func runSel(src string, nodes []*html.Node, tags map[string]bool) (coq string, o
 			obs.Reparsed = "unsupported structure"
 		}
 	}
-	coq = fmt.Sprintf("SC %s (Some %s) %s %s %s %s", vlib.Bytes(src), ast, gm, vlib.List(each), vlib.Bytes(str), rt)
+	if rt == "(Some "+ast+")" {
+		coq = fmt.Sprintf("SCsame %s %s %s %s %s", vlib.Bytes(src), ast, gm, vlib.List(each), vlib.Bytes(str))
+	} else {
+		coq = fmt.Sprintf("SC %s (Some %s) %s %s %s %s", vlib.Bytes(src), ast, gm, vlib.List(each), vlib.Bytes(str), rt)
+	}
 	return coq, obs, true, nontrivial
 }
 
@@ -732,7 +968,8 @@ func runDoc(doc string, sels []string, kind string) (vlib.Case, bool) {
 
 // ---------------------------------------------------------------- exhaustive small bounds (thorough tier)
 
-// all trees with <= 4 nodes below <body> over a 2-tag / 1-class alphabet, as HTML strings
+// all trees with <= 3 nodes below <body> (and one in seven of those with 4) over a
+// 2-tag / 2-class alphabet with text nodes, as HTML strings
 func smallDocs() []string {
 	var shapes func(n int) []string
 	elems := []string{`<p>`, `<p class=a>`, `<div>`, `<div class="a b">`}
@@ -768,8 +1005,8 @@ func smallDocs() []string {
 	}
 	var docs []string
 	for n := 1; n <= 4; n++ {
-		for _, f := range shapes(n) {
-			if strings.Contains(f, "xx") {
+		for i, f := range shapes(n) {
+			if strings.Contains(f, "xx") || (n == 4 && i%7 != 0) {
 				continue
 			}
 			docs = append(docs, "<body>"+f)
@@ -824,6 +1061,45 @@ func main() {
 	defer w.Close()
 	thorough := os.Getenv("VERIF_TIER") == "thorough"
 
+	// 0. replay of the witnesses of the two proved deviations from Selectors 4 (Properties/C05.v):
+	// the implementation's answer at the witness node
+	for _, wit := range []struct {
+		k         int
+		doc, sel  string
+		tag, note string
+	}{
+		{1, "<section><div><p></p></div></section>", "div:has(section p)", "has-combinator-arg", "Selectors 4: div does not match (section is not below the div)"},
+		{2, `<html title="  ">`, `[title^=" "]`, "blank-attr-substring", "Selectors 4: html matches (the value begins with a space)"},
+	} {
+		root, err := html.Parse(strings.NewReader(wit.doc))
+		g, err2 := selector.ParseGroup(wit.sel)
+		if err != nil || err2 != nil {
+			continue
+		}
+		ast, ok := coqGroup(selector.VerifDumpGroup(g))
+		if !ok {
+			continue
+		}
+		var nodes []*html.Node
+		walk(root, func(n *html.Node) { nodes = append(nodes, n) })
+		want := "div"
+		if wit.k == 2 {
+			want = "html"
+		}
+		for i, n := range nodes {
+			if n.Type == html.ElementNode && n.Data == want {
+				var tree strings.Builder
+				coqNode(root, &tree)
+				m := g.Match(n)
+				w.Add(vlib.Case{Kind: "spec-deviation",
+					Coq:  fmt.Sprintf("CWitness %d (%s) %s %d %s", wit.k, tree.String(), ast, i, vlib.Bool(m)),
+					Desc: map[string]interface{}{"html": wit.doc, "selector": wit.sel, "node": descNode(n), "match": m, "specification": wit.note},
+					Tags: []string{wit.tag}, Nontrivial: true})
+				break
+			}
+		}
+	}
+
 	// 1. regression corpus
 	files, _ := filepath.Glob("../corpus/C05/*.json")
 	sort.Strings(files)
@@ -848,8 +1124,8 @@ func main() {
 	if thorough {
 		sels := smallSels()
 		for _, d := range smallDocs() {
-			for i := 0; i < len(sels); i += 60 {
-				j := i + 60
+			for i := 0; i < len(sels); i += 120 {
+				j := i + 120
 				if j > len(sels) {
 					j = len(sels)
 				}
@@ -871,9 +1147,25 @@ func main() {
 			kind = "boundary"
 			g.mal = true
 		}
+		var elems []*html.Node
+		if root, err := html.Parse(strings.NewReader(doc)); err == nil {
+			walk(root, func(n *html.Node) {
+				if n.Type == html.ElementNode {
+					elems = append(elems, n)
+				}
+			})
+		}
 		sels := make([]string, *perDoc)
 		for i := range sels {
-			s := g.group(r.Range(0, 3), true)
+			var s string
+			if len(elems) > 0 && i%2 == 1 { // every other selector follows a real element of this tree
+				s = g.guided(vlib.Pick(r, elems))
+				if r.Chance(1, 5) {
+					s += ", " + g.guided(vlib.Pick(r, elems))
+				}
+			} else {
+				s = g.group(r.Range(0, 3), true)
+			}
 			if g.mal && r.Chance(1, 2) {
 				s = mutate(r, s)
 			}
